@@ -236,32 +236,28 @@ def addCell (k : Kernel) (hfs : List Nat) (chk : Bool) : Kernel × Option Nat :=
 /-! ### set_edge / set_face / set_cell (cc:495-592) -/
 
 def setEdge (k : Kernel) (e a b : Nat) : Kernel :=
-  let (fv, tv) := k.edgeAt e
-  let k1 := if k.vBU then
-      let o := k.outHes.modify fv (removeAll · (heOf e 0))
-      let o := o.modify tv (removeAll · (heOf e 1))
-      let o := o.modify a (· ++ [heOf e 0])
-      { k with outHes := o.modify b (· ++ [heOf e 1]) }
-    else k
-  { k1 with edges := k1.edges.set e (a, b) }
+  { k with
+    outHes := if k.vBU then
+        (((k.outHes.modify (k.edgeAt e).1 (removeAll · (heOf e 0))).modify (k.edgeAt e).2 (removeAll · (heOf e 1))).modify a
+          (· ++ [heOf e 0])).modify b (· ++ [heOf e 1])
+      else k.outHes,
+    edges := k.edges.set e (a, b) }
 
 def setFace (k : Kernel) (f : Nat) (hes : List Nat) : Kernel :=
-  let k1 := if k.eBU then
-      let old := k.faceAt f
-      let inc := old.foldl (fun inc h =>
-        (inc.modify h (removeAll · (heOf f 0))).modify (opp h) (removeAll · (heOf f 1))) k.incHfs
-      let inc := hes.foldl (fun inc h =>
-        (inc.modify h (· ++ [heOf f 0])).modify (opp h) (· ++ [heOf f 1])) inc
-      { k with incHfs := inc }
-    else k
-  { k1 with faces := k1.faces.set f hes }
+  { k with
+    incHfs := if k.eBU then
+        hes.foldl (fun inc h => (inc.modify h (· ++ [heOf f 0])).modify (opp h) (· ++ [heOf f 1]))
+          ((k.faceAt f).foldl (fun inc h =>
+            (inc.modify h (removeAll · (heOf f 0))).modify (opp h) (removeAll · (heOf f 1))) k.incHfs)
+      else k.incHfs,
+    faces := k.faces.set f hes }
 
 def setCell (k : Kernel) (c : Nat) (hfs : List Nat) : Kernel :=
-  let k1 := if k.fBU then
-      let ic := (k.cellAt c).foldl (fun ic hf => ic.set hf none) k.incCell
-      { k with incCell := hfs.foldl (fun ic hf => ic.set hf (some c)) ic }
-    else k
-  { k1 with cells := k1.cells.set c hfs }
+  { k with
+    incCell := if k.fBU then
+        hfs.foldl (fun ic hf => ic.set hf (some c)) ((k.cellAt c).foldl (fun ic hf => ic.set hf none) k.incCell)
+      else k.incCell,
+    cells := k.cells.set c hfs }
 
 end Kernel
 end OVM
